@@ -1,5 +1,7 @@
 import CoercionModel.Model.Builder
 import CoercionModel.Proofs.BuilderRef
+import CoercionModel.Model.SkeletonsMore
+import CoercionModel.Generated.F12
 set_option linter.unusedSimpArgs false
 /-
   C20 — Builder yields the described plan or a sticky first error; never panics.
@@ -198,5 +200,10 @@ example : (run {} (exCalls ++ [.up, .addBlock { name := "b2", descr := "d" }, .e
 example : ((zrun {} exCalls).map (fun z => (finish z).blocks.map (fun b => (b.name, b.seqs.map (fun q => (q.name, q.actions.map (·.name))),
     b.post.map (fun c => c.actions.map (·.name)))))).getD [] = [("b1", [("s1", ["a1"])], some ["c2"])] := by decide
 example : ((zrun {} exCalls).bind (zstep · .up)).isNone = true := by decide
+
+set_option maxRecDepth 100000 in
+/-- the code this property's model mirrors still has the shape the model was written against (control-flow
+    skeletons regenerated from /repo on every run, Model/SkeletonsMore) -/
+theorem facts_model_skeleton : Generated.F12.builder = SkeletonsMore.builder := by decide +kernel
 
 end Coercion.C20
